@@ -71,7 +71,8 @@ contract(
     prop=["C08", "C07"], file=R, func="locked_ref.__exit__",
     params={"self": "obj:locked_ref", "exc_type": "opaque?", "exc_value": "opaque", "traceback": "opaque"}, returns="None",
     requires=LOCKED,
-    modifies=["self._file._closed", "self._file.owns", "self._file.committed", "self._file.stuck"],
+    modifies=["self._file._closed", "self._file.owns", "self._file.committed", "self._file.stuck",
+              "self._file._file.flushed", "self._file._file.synced"],
     raises={ANY: ["not self._file.owns or self._file.stuck", "not self._file.committed"]},
     ensures=["not self._file.owns",
              # the ref is replaced only by a value that was staged, and never on failure or after delete()
